@@ -300,8 +300,8 @@ type summary struct {
 	Traces     int            `json:"traces"`
 	Events     int            `json:"events"`
 	Nontrivial int            `json:"distinct_nontrivial"`
-	Vocab      []string       `json:"-"`
-	Used       map[string]int `json:"-"`
+	Vocab      []string       `json:"vocab"`
+	Used       map[string]int `json:"used"`
 	Unused     []string       `json:"unused_atoms"`
 	Samples    []interface{}  `json:"samples"`
 }
